@@ -253,9 +253,20 @@ func (rn *runner) msgObjRun(k int, r *prng.R, sr bool, fresh *network.Message, s
 		}
 		d, err := decodeMessage(sr, f)
 		if err != nil || showMessage(d) != want {
-			if !plain && flags&1 != 0 && !lz4ok {
+			// a frame in the compressed form under the Compressed flag whose payload is accepted in the plain form: the
+			// only thing between the two is network.compress / decompress (their output differs from call to call), i.e.
+			// the known LZ4 decoder defect
+			lz4class := false
+			if !plain && flags&1 != 0 {
+				if pf, e2 := network.NewMessage(fresh.Command, fresh.Payload).BytesCompressed(false); e2 == nil {
+					if pd, e3 := decodeMessage(sr, pf); e3 == nil && showMessage(pd) == want {
+						lz4class = true
+					}
+				}
+			}
+			if lz4class {
 				o.Count("msgobj:lz4-known")
-				o.Fail("message-lz4-roundtrip", k, "%s: the compressed frame of a valid payload (%d bytes) is refused by Message.Decode, as is the one of a fresh message: %v", hist, len(body), err)
+				o.Fail("message-lz4-roundtrip", k, "%s: the compressed frame of a valid payload (%d bytes, accepted in the plain form) is refused by Message.Decode: %v", hist, len(body), err)
 			} else {
 				o.Fail("message-reencode", k, "%s: the frame written (flags %#x, %s form, command %#x, payload %d bytes) does not decode to the message: %v", hist, flags, form, cmd, len(body), err)
 			}
